@@ -20,7 +20,7 @@ def repodata(draw, min_artifacts=0, max_artifacts=8):
     names = draw(st.lists(NAMES, min_size=n, max_size=n, unique=True))
     metas = []
     for i in range(n):
-        kind = draw(st.sampled_from(["record", "record", "record", "json", "same-as-prev", "prev-one-leaf"]))
+        kind = draw(st.sampled_from(["record", "record", "record", "json", "same-as-prev", "prev-one-leaf", "envelope-shaped"]))
         if kind == "same-as-prev" and metas:
             metas.append(json.loads(json.dumps(metas[-1])) if _plain(metas[-1]) else draw(G.package_record))
         elif kind == "prev-one-leaf" and metas and type(metas[-1]) is dict:
@@ -29,6 +29,9 @@ def repodata(draw, min_artifacts=0, max_artifacts=8):
             metas.append(m)
         elif kind == "json":
             metas.append(draw(G.payloads))
+        elif kind == "envelope-shaped":
+            # metadata that itself looks like a signed envelope (two fields "signatures" and "signed")
+            metas.append({"signatures": draw(st.sampled_from([{}, {"ab" * 32: {"signature": "cd" * 64}}])), "signed": draw(G.package_record)})
         else:
             metas.append(draw(G.package_record))
     split = draw(st.integers(0, n))
